@@ -73,6 +73,17 @@ impl TaskPool {
         pool
     }
 
+    /// Verification only: (worker threads alive, workers counted idle, queued tasks).
+    #[cfg(tiny_http_verif)]
+    pub fn verif_snapshot(&self) -> (usize, usize, usize) {
+        let queue = self.sharing.todo.lock().unwrap();
+        (
+            self.sharing.active_tasks.load(Ordering::Acquire),
+            self.sharing.waiting_tasks.load(Ordering::Acquire),
+            queue.len(),
+        )
+    }
+
     /// Executes a function in a thread.
     /// If no thread is available, spawns a new one.
     pub fn spawn(&self, code: Box<dyn FnMut() + Send>) {
